@@ -231,6 +231,23 @@ pub fn absent_streams_unreported(d: &Dump, soft_text: &str) -> Vec<(String, Stri
     v
 }
 
+/// The soft-error laws that hold for EVERY successful dump, whatever the target or environment: the
+/// stream is present, is a JSON list, and names the step of every optional stream that is absent.
+pub fn soft_error_laws(bytes: &[u8]) -> Vec<String> {
+    let d = Dump::parse(bytes);
+    let Some(soft) = d.raw_bytes(bytes, ST_MOZ_SOFT_ERRORS) else {
+        return vec!["soft-error-stream-missing: the dump has no soft-error stream".into()];
+    };
+    match serde_json::from_slice::<Value>(soft) {
+        Ok(Value::Array(a)) => {
+            let text = Value::Array(a).to_string();
+            absent_streams_unreported(&d, &text).into_iter().map(|(k, m)| format!("{k}: {m}")).collect()
+        }
+        Ok(_) => vec!["soft-errors-not-an-array: the soft-error stream is JSON but not a list".into()],
+        Err(e) => vec![format!("soft-errors-not-json: the soft-error stream is not well-formed JSON: {e}")],
+    }
+}
+
 /// Natural failures of the 'read linker debug data' step: the 12 chain shapes of the synthetic linker
 /// window (C02 family D) — whatever the shape, the dump succeeds, the soft-error stream is a JSON list,
 /// a missing linker stream is reported, and all other streams equal the baseline over the intact window.
@@ -416,6 +433,20 @@ pub fn run(ctx: &Ctx, rep: &mut Report) {
         let n = case["n"].as_u64().unwrap_or(3) as usize;
         let ctx_on = case["ctx"].as_bool().unwrap_or(false);
         let name = case["name"].as_str().unwrap_or("");
+        if case.get("family").is_some() {
+            let Some(c) = crate::checks::c02::Case::from_json(case) else {
+                rep.machinery("bad replay".into());
+                return;
+            };
+            *crate::checks::c02::EXTRA_JUDGE.write().unwrap() = Some(soft_error_laws);
+            let v = crate::checks::c02::run_standalone(&c);
+            rep.evaluations += 1;
+            for e in v.structure {
+                let k = e.split(':').next().unwrap_or("law").to_string();
+                rep.violation(&format!("hostile/{}/{k}", c.family()), &e, case.clone());
+            }
+            return;
+        }
         if let Some(shape) = case.get("linker_shape").and_then(|v| v.as_u64()) {
             let r = run_linker_shape(shape as usize);
             rep.evaluations += 1;
@@ -499,6 +530,22 @@ pub fn run(ctx: &Ctx, rep: &mut Report) {
             }
         }
     }
+    // hostile-world targets and environments (C02's case list): every dump that succeeds obeys the soft-error laws
+    *crate::checks::c02::EXTRA_JUDGE.write().unwrap() = Some(soft_error_laws);
+    let hostile = crate::checks::c02::run_real_cases(ctx.tier.is_thorough());
+    let mut hok = 0u64;
+    for (c, v) in hostile {
+        rep.evaluations += 1;
+        if v.kind == 0 {
+            hok += 1;
+            rep.nontrivial += 1;
+        }
+        for e in v.structure {
+            let k = e.split(':').next().unwrap_or("law").to_string();
+            rep.violation(&format!("hostile/{}/{k}", c.family()), &e, c.to_json());
+        }
+    }
+    rep.set("hostile_world_dumps_judged", json!(hok));
     let shapes: Vec<usize> = (0..crate::checks::c02::N_LINKER_SHAPES).collect();
     let lres = par_map(&shapes, |_, s| run_linker_shape(*s));
     for (s, r) in shapes.iter().zip(lres) {
